@@ -125,6 +125,7 @@ func (data EditCandidatePublicKeyData) Run(tx *Transaction, context state.Interf
 		rewardPool.Add(rewardPool, commissionInBaseCoin)
 
 		deliverState.Candidates.ChangePubKey(data.PubKey, data.NewPubKey)
+		deliverState.Validators.ChangePubKey(data.PubKey, data.NewPubKey)
 
 		deliverState.Accounts.SetNonce(sender, tx.Nonce)
 
